@@ -7,9 +7,10 @@
 EXTENDS Util
 
 CONSTANTS L, UsesGlobal, UsesHistory,       \* as-is switches: a run reading the global generator / left-over state
-          UsesProcess                      \* ... / something that differs between interpreter processes (hash ordering)
-VARIABLES g, ran, reuse, hist, runs, plugged, proc
-rvars == <<g, ran, reuse, hist, runs, plugged, proc>>
+          UsesProcess,                     \* ... / something that differs between interpreter processes (hash ordering)
+          UsesConcurrent                   \* ... / state of another optimization that is alive at the same time
+VARIABLES g, ran, reuse, hist, runs, plugged, proc, nest
+rvars == <<g, ran, reuse, hist, runs, plugged, proc, nest>>
 
 Cfgs == 1..2
 Seeds == 1..2
@@ -17,21 +18,26 @@ Seeds == 1..2
 \* plugged: a prioritised plug-in for the configured method names has been registered (on the re-used manager and on every
 \* manager created afterwards) - a legitimate input of a run, like the configuration
 \* proc: the interpreter process the run executes in (another process: another string-hash salt, another address space)
-TraceOf(c, s) == <<c, s, plugged, IF UsesGlobal THEN g ELSE 0, IF UsesHistory THEN ran ELSE 0, IF UsesProcess THEN proc ELSE 0>>
+\* nest: another optimization (same configuration, another seed) is started from inside an evaluator call of the run and
+\* completes there - two evaluators, and their samplers, are alive at the same time
+TraceOf(c, s) == <<c, s, plugged, IF UsesGlobal THEN g ELSE 0, IF UsesHistory THEN ran ELSE 0, IF UsesProcess THEN proc ELSE 0,
+                   IF UsesConcurrent THEN nest ELSE FALSE>>
 PertOf(c, s) == <<s, plugged, IF UsesGlobal THEN g ELSE 0>>
 
-Init == g = 0 /\ ran = 0 /\ reuse = FALSE /\ hist = <<>> /\ runs = <<>> /\ plugged = FALSE /\ proc = 1
-Reseed(s)  == g' = s /\ hist' = Append(hist, [op |-> "reseed", a |-> s, b |-> 0]) /\ UNCHANGED <<ran, reuse, runs, plugged, proc>>
-Draw       == g' = (g + 1) % 4 /\ hist' = Append(hist, [op |-> "draw", a |-> 0, b |-> 0]) /\ UNCHANGED <<ran, reuse, runs, plugged, proc>>
+Init == g = 0 /\ ran = 0 /\ reuse = FALSE /\ hist = <<>> /\ runs = <<>> /\ plugged = FALSE /\ proc = 1 /\ nest = FALSE
+Reseed(s)  == g' = s /\ hist' = Append(hist, [op |-> "reseed", a |-> s, b |-> 0]) /\ UNCHANGED <<ran, reuse, runs, plugged, proc, nest>>
+Draw       == g' = (g + 1) % 4 /\ hist' = Append(hist, [op |-> "draw", a |-> 0, b |-> 0]) /\ UNCHANGED <<ran, reuse, runs, plugged, proc, nest>>
 Other(c)   == ran' = ran + 1 /\ g' = (g + c) % 4      \* another optimization runs (and may use the global generator itself)
-              /\ hist' = Append(hist, [op |-> "other", a |-> c, b |-> 0]) /\ UNCHANGED <<reuse, runs, plugged, proc>>
-Toggle     == reuse' = ~reuse /\ hist' = Append(hist, [op |-> "reuse", a |-> 0, b |-> 0]) /\ UNCHANGED <<g, ran, runs, plugged, proc>>
-Plug       == ~plugged /\ plugged' = TRUE /\ hist' = Append(hist, [op |-> "plug", a |-> 0, b |-> 0]) /\ UNCHANGED <<g, ran, reuse, runs, proc>>
+              /\ hist' = Append(hist, [op |-> "other", a |-> c, b |-> 0]) /\ UNCHANGED <<reuse, runs, plugged, proc, nest>>
+Toggle     == reuse' = ~reuse /\ hist' = Append(hist, [op |-> "reuse", a |-> 0, b |-> 0]) /\ UNCHANGED <<g, ran, runs, plugged, proc, nest>>
+Plug       == ~plugged /\ plugged' = TRUE /\ hist' = Append(hist, [op |-> "plug", a |-> 0, b |-> 0]) /\ UNCHANGED <<g, ran, reuse, runs, proc, nest>>
 \* the following target runs execute in another interpreter process
-Process    == proc' = 3 - proc /\ hist' = Append(hist, [op |-> "proc", a |-> 0, b |-> 0]) /\ UNCHANGED <<g, ran, reuse, runs, plugged>>
+Process    == proc' = 3 - proc /\ hist' = Append(hist, [op |-> "proc", a |-> 0, b |-> 0]) /\ UNCHANGED <<g, ran, reuse, runs, plugged, nest>>
+\* the following target runs have another optimization running inside them
+Nest       == nest' = ~nest /\ hist' = Append(hist, [op |-> "nest", a |-> 0, b |-> 0]) /\ UNCHANGED <<g, ran, reuse, runs, plugged, proc>>
 Target(c, s) == /\ runs' = Append(runs, [cfg |-> c, seed |-> s, plug |-> plugged, trace |-> TraceOf(c, s), pert |-> PertOf(c, s)])
-                /\ ran' = ran + 1
-                /\ hist' = Append(hist, [op |-> "target", a |-> c, b |-> s]) /\ UNCHANGED <<g, reuse, plugged, proc>>
+                /\ ran' = ran + (IF nest THEN 2 ELSE 1)
+                /\ hist' = Append(hist, [op |-> "target", a |-> c, b |-> s]) /\ UNCHANGED <<g, reuse, plugged, proc, nest>>
 Next == /\ Len(hist) < L
         /\ \/ \E s \in Seeds : Reseed(s)
            \/ Draw
@@ -39,6 +45,7 @@ Next == /\ Len(hist) < L
            \/ Toggle
            \/ Plug
            \/ Process
+           \/ Nest
            \/ \E c \in Cfgs, s \in Seeds : Target(c, s)
 
 Reproducible == \A i, j \in 1..Len(runs) : (runs[i].cfg = runs[j].cfg /\ runs[i].seed = runs[j].seed /\ runs[i].plug = runs[j].plug) => runs[i].trace = runs[j].trace
